@@ -352,11 +352,15 @@ func (r *Run) applyCorruptions(tx *bbolt.Tx, m *Model, list []Corruption) []appl
 				expect: [][]string{{"notes.about has invalid value for note " + n + ", which references invalid people " + g}}})
 		case "fkc-dangling-pair":
 			store, field, ids, target := StNotes, "about", keysOf(m.Notes), "people"
-			switch c.N % 3 {
+			switch c.N % 5 {
 			case 1:
 				store, field, ids, target = StTickets, "assignee", keysOf(m.Tickets), "people"
 			case 2:
 				store, field, ids, target = StMemos, "topic", keysOf(m.Memos), "group"
+			case 3:
+				store, field, ids, target = StReviews, "reviewer", keysOf(m.Reviews), "people" // (the staff view of people)
+			case 4:
+				store, field, ids, target = StFolders, "parent", keysOf(m.Folders), "folder"
 			}
 			var rows []string
 			for _, id := range ids {
@@ -723,17 +727,40 @@ func (r *Run) integrityPhase() {
 		}
 	}
 
-	// 2. one fix pass
-	if _, err := r.checkAll(true); err != nil {
-		bad("fix-error", "CheckIntegrity(fix=true) failed: %v; %s", err, ctxDesc)
-		return
-	}
-
-	// 3. re-check: only genuine data conflicts remain, and the indexes mirror the entities again
-	rep3, err := r.checkAll(false)
-	if err != nil {
-		bad("check-error", "CheckIntegrity(fix=false) after the fix pass failed: %v; %s", err, ctxDesc)
-		return
+	// 2. one fix pass  3. re-check: only genuine data conflicts remain, and the indexes mirror the entities again.
+	// In half of the runs both happen inside ONE write transaction (the re-check then reads what the fix pass wrote
+	// but has not committed yet).
+	var rep3 []intReport
+	if r.plan.Seed>>11&1 == 1 {
+		err = r.db.Update(nil, func(ctx boltz.MutateContext) error {
+			for _, fix := range []bool{true, false} {
+				for _, st := range r.st.All() {
+					if err := st.CheckIntegrity(ctx, fix, func(err error, fixed bool) {
+						if !fix {
+							rep3 = append(rep3, intReport{err.Error(), fixed})
+						}
+					}); err != nil {
+						return err
+					}
+				}
+			}
+			return nil
+		})
+		if err != nil {
+			bad("fix-error", "CheckIntegrity(fix=true) + re-check in one transaction failed: %v; %s", err, ctxDesc)
+			return
+		}
+		r.probe("fix_and_recheck_in_one_tx")
+	} else {
+		if _, err := r.checkAll(true); err != nil {
+			bad("fix-error", "CheckIntegrity(fix=true) failed: %v; %s", err, ctxDesc)
+			return
+		}
+		rep3, err = r.checkAll(false)
+		if err != nil {
+			bad("check-error", "CheckIntegrity(fix=false) after the fix pass failed: %v; %s", err, ctxDesc)
+			return
+		}
 	}
 	for _, rp := range rep3 {
 		allowed := false
